@@ -73,6 +73,10 @@ register("THRESHOLD_DEFAULT", "src/cli.rs", r'#\[arg\(long, default_value = "([0
 register("THRESHOLD_MAX", "src/cli.rs", r"if self\.delete_threshold > ([0-9]+)", 100, "Z", ["C07"])
 
 
+# ---- C15: `--verify-only` is handled, and the process left, before SyncEngine::sync can be reached (so the engine-side state-file
+# sites of coq/gen/StateGuards.v are out of its reach; the main.rs sites carry !cli.verify_only)
+register("VERIFY_EXITS_BEFORE_SYNC", "src/main.rs", r"if cli\.verify_only \{[\s\S]*?std::process::exit\(exit_code\);\s*\}\s*(?://[^\n]*\s*)*if cli\.watch \{()", 1, "Z", ["C15"])
+
 # ---- C05 / C09: working-file naming
 register("TEMP_SUFFIX", "src/temp_file.rs", r'pub fn temp_path_for\(dest: &Path\) -> PathBuf \{[\s\S]*?name\.push\("([^"\\]*)"\);\s*dest\.with_file_name\(name\)', ".sy.tmp", "bytes", ["C05", "C09"])
 register("TEMP_CALLSITE", "src/transport/local.rs", r"let temp_dest = crate::temp_file::temp_path_for\(&dest\);\s*(?://[^\n]*\s*)*let _ = fs::remove_file\(&temp_dest\);\s*let temp_guard = TempFileGuard::new\(&temp_dest\);()", 1, "Z", ["C05", "C09"])
@@ -160,6 +164,11 @@ def generate():
     if old != text:
         with open(OUT, "w") as f:
             f.write(text)
+    # the translated guards of the state-file sites (py/gen_stateguards.py -> coq/gen/StateGuards.v): a site that is no longer found
+    # is a broken tie of C08 / C15, like an anchor that no longer matches
+    import gen_stateguards
+    for b in gen_stateguards.generate()["broken"]:
+        missing.append({"name": b, "file": "src/main.rs, src/sync/mod.rs", "regex": "", "owners": ["C08", "C15"]})
     changed = {n: {"now": v, "pinned": p, "owners": o, "file": fl} for n, (v, p, k, o, fl) in vals.items() if v != p}
     return {"values": {n: v for n, (v, p, k, o, fl) in vals.items()}, "missing": missing, "changed": changed,
             "rewritten": old != text}
